@@ -153,6 +153,61 @@ def run(rep, tier="quick", replay=None, evidence_dir=None):
             n3 += 1
             rep.ob("C15.R3", "[C05.R1] " + o["instance"], o["ok"], o["detail"], o["loc"])
     rep.floor("C15.R3", "bounded-output obligations in Codec::decompress", n3, 5)
+    # ... and the bound is the configured limit itself, not a smaller figure derived from the size of the compressed input
+    # (a payload that compresses better than the assumed ratio would be rejected although it is below the limit)
+    dcb = prog.body("codec::Codec::decompress")
+    fam15 = prog.with_closures(dcb)
+    SINKS = ("decompress_to_vec_with_limit", "decompress_to_vec_zlib_with_limit", "take", "with_capacity", "decompress_len")
+    PASS = ("std::convert::Into::into", "std::convert::From::from", "std::convert::TryInto::try_into", "std::convert::TryFrom::try_from", "std::result::Result::<T, E>::unwrap_or",
+            "std::result::Result::<T, E>::unwrap_or_default", "std::result::Result::<T, E>::map_err", "std::ops::Try::branch", "std::clone::Clone::clone")
+    n3b = 0
+    for bb in fam15:
+        for bi, t in bb.calls():
+            nm_ = callee_names(t["func"])[0]
+            if nm_.split("::")[-1] not in ("decompress_to_vec_with_limit", "take") or len(t["args"]) < 2:
+                continue
+            cur = t["args"][-1]
+            direct = False
+            via = []
+            for _ in range(8):
+                if cur.get("k") not in ("copy", "move"):
+                    break
+                # look through plain copies and integer casts
+                for _c in range(6):
+                    sdc = bb.single_def(cur["pl"]["l"]) if not cur["pl"]["p"] else None
+                    if sdc and sdc[2] == "assign" and sdc[3]["r"] in ("cast", "use") and sdc[3]["o"].get("k") in ("copy", "move"):
+                        cur = sdc[3]["o"]
+                    else:
+                        break
+                cr = bb.call_result_of(cur)
+                if cr is None:
+                    r_ = bb.resolve_operand(cur)
+                    # a captured / moved local that holds the getter's result
+                    sd_ = bb.single_def(r_[0]) if r_ else None
+                    if sd_ and sd_[2] == "call":
+                        cr = (sd_[0], sd_[3])
+                    else:
+                        break
+                cn = callee_names(cr[1]["func"])[0]
+                if cn.endswith("util::max_allocation_bytes") or cn == "util::max_allocation_bytes":
+                    direct = True
+                    break
+                grows = cn.split("::")[-1] in ("saturating_add", "checked_add", "wrapping_add") and len(cr[1]["args"]) == 2 and cr[1]["args"][1].get("k") == "const"
+                if cn in PASS or grows or cn.endswith(("::try_into", "::into", "::try_from", "::from")):
+                    via.append(cn.split("::")[-1])
+                    cur = cr[1]["args"][0]
+                    continue
+                via.append(cn)
+                break
+            if bb.kind == "Closure" and not direct:
+                # closures see the limit as a captured variable of the parent: described as `max_bytes`
+                direct = "max_bytes" in bb.opdesc(t["args"][-1]) and not via
+            n3b += 1
+            inst = "%s: the output bound of %s is the configured limit itself" % ("codec::Codec::decompress", nm_.split("::")[-1])
+            kx = sum(1 for o in rep.obligations if o["rule"] == "C15.R3" and o["instance"].startswith(inst))
+            rep.ob("C15.R3", inst + ("" if not kx else " #%d" % (kx + 1)), direct,
+                   "the bound is computed (%s) instead of being the value of max_allocation_bytes(): a derived, smaller bound rejects payloads that decompress to less than the limit" % (via or bb.opdesc(t["args"][-1])), bb.loc(bi))
+    rep.floor("C15.R3", "decompression sinks with a bound operand", n3b, 1)
 
     # ---------------------------------------------------------------- R4
     hd = prog.bodies.get("writer::Writer::<'a, W>::header")
